@@ -215,4 +215,59 @@ pub fn run(ctx: &Ctx) {
     }
     eval(ctx, "bad_strings", &b, kind, st)
   });
+
+  // long strings: lengths around multiples of 4096 (internal read buffers), definite and chunked, text with a
+  // multi-byte character straddling each boundary, bare and inside an array
+  let mut long: Vec<Vec<u8>> = vec![];
+  let head = |mt: u8, n: usize| -> Vec<u8> {
+    let mut h = vec![];
+    cbor::head(&mut h, mt, n as u64, 0);
+    h
+  };
+  for &len in &[4094usize, 4095, 4096, 4097, 4098, 8191, 8192, 8193, 12289, 16385] {
+    let bytes: Vec<u8> = (0..len).map(|i| (i % 251) as u8).collect();
+    // text of exactly `len` bytes: `lead` ASCII letters, then two-byte characters (so that one of them crosses
+    // offset 4096 / 8192 for one of the two parities), ASCII padding at the end
+    let mk_text = |lead: usize| -> String {
+      let mut t = "a".repeat(lead.min(len));
+      while t.len() + 2 <= len {
+        t.push('\u{e9}');
+      }
+      while t.len() < len {
+        t.push('z');
+      }
+      t
+    };
+    let text = mk_text(0);
+    let odd_text = mk_text(1);
+    for (mt, payload) in [(2u8, bytes.clone()), (3u8, text.into_bytes()), (3u8, odd_text.into_bytes())] {
+      if mt == 3 && std::str::from_utf8(&payload).is_err() {
+        continue;
+      }
+      let mut def = head(mt, payload.len());
+      def.extend_from_slice(&payload);
+      long.push(def.clone());
+      let mut arr = vec![0x82];
+      arr.extend_from_slice(&def);
+      arr.push(0x01);
+      long.push(arr);
+      // chunked at 4096 and at 1 (chunks must themselves be valid UTF-8 for text)
+      for split in [1usize, 4096, payload.len() / 2] {
+        if split == 0 || split >= payload.len() {
+          continue;
+        }
+        if mt == 3 && (std::str::from_utf8(&payload[..split]).is_err() || std::str::from_utf8(&payload[split..]).is_err()) {
+          continue;
+        }
+        let mut ind = vec![(mt << 5) | 31];
+        ind.extend_from_slice(&head(mt, split));
+        ind.extend_from_slice(&payload[..split]);
+        ind.extend_from_slice(&head(mt, payload.len() - split));
+        ind.extend_from_slice(&payload[split..]);
+        ind.push(0xff);
+        long.push(ind);
+      }
+    }
+  }
+  sweep(ctx, "long_strings", &long, |b, st| eval(ctx, "long_strings", b, "long_string", st));
 }
